@@ -151,7 +151,9 @@ func getKeystoreFromJson(keysJson []byte) (*Keystore, error) {
 // NOTE: this func will leave the masterKeyPriv derived
 func (a *AddrManager) checkPassword(passphrase []byte) error {
 	if a.unlocked {
-		saltedPassphrase := append(a.privPassphraseSalt[:],
+		// copy the salt: appending nothing to a.privPassphraseSalt[:] would alias the array, and the
+		// zeroing below would wipe the salt itself
+		saltedPassphrase := append(append([]byte{}, a.privPassphraseSalt[:]...),
 			passphrase...)
 		hashedPassphrase := sha512.Sum512(saltedPassphrase)
 		zero.Bytes(saltedPassphrase)
@@ -681,7 +683,7 @@ func (a *AddrManager) signBtcec(hash []byte, addr string, password []byte) (sign
 	}
 	// update cache, mark unlocked
 	if !a.unlocked {
-		saltPassphrase := append(a.privPassphraseSalt[:], password...)
+		saltPassphrase := append(append([]byte{}, a.privPassphraseSalt[:]...), password...)
 		a.hashedPrivPassphrase = sha512.Sum512(saltPassphrase)
 		zero.Bytes(saltPassphrase)
 		a.unlocked = true
